@@ -135,6 +135,10 @@ func (x *Exec) valueInstr(st *State, b *ssa.BasicBlock, i int, ins ssa.Value, k 
 		if ins.CommaOk {
 			return SVal{K: KTuple, Elems: []SVal{res, mkBool(okT)}}, false
 		}
+		if types.IsInterface(ins.AssertedType) && types.AssignableTo(ins.X.Type(), ins.AssertedType) {
+			// assertion to an interface the static type already satisfies: fails only for nil
+			okT = not(eq(ut, "nil"))
+		}
 		x.obl(st, "nopanic/typeassert", okT, "type assertion without ok", ins.Pos())
 		st.assume(okT)
 		return res, false
@@ -182,7 +186,7 @@ func (x *Exec) valueInstr(st *State, b *ssa.BasicBlock, i int, ins ssa.Value, k 
 	case *ssa.MakeChan:
 		sz := x.val(st, ins.Size)
 		name := x.D.fresh("chan", "U")
-		ev := x.event(st, Event{Name: "chan.make", Args: []SVal{sz}, Pos: ins.Pos()})
+		ev := x.event(st, Event{Name: "chmake", Args: []SVal{sz}, Pos: ins.Pos()})
 		_ = ev
 		return SVal{K: KU, T: q(name), GoT: ins.Type(), Src: "chan:" + ins.Name()}, false
 	case *ssa.Select:
@@ -366,7 +370,7 @@ func (x *Exec) unop(st *State, ins *ssa.UnOp) SVal {
 	case token.ARROW:
 		okv := q(x.D.fresh("recvok", "Bool"))
 		val := x.symbolic(st, x.D.fresh("recv", "U")+"v", chanElem(ins.X.Type()))
-		x.event(st, Event{Name: "chan.recv:" + provName(v), Args: []SVal{v}, Res: []SVal{val}, Pos: ins.Pos()})
+		x.event(st, Event{Name: "chrecv:" + provName(v), Args: []SVal{v}, Res: []SVal{val}, Pos: ins.Pos()})
 		if ins.CommaOk {
 			return SVal{K: KTuple, Elems: []SVal{val, mkBool(okv)}}
 		}
